@@ -991,3 +991,12 @@ func (r *Run) AllEffectTable(keep func(tableRow) bool, why string) int {
 	}
 	return n
 }
+
+// commonExplain describes the generated regression tables every property also runs over its scope.
+func commonExplain(id string) string {
+	sc := successScope[id]
+	if len(sc) == 0 {
+		return ""
+	}
+	return " In addition, over the files this property depends on (" + strings.Join(sc, ", ") + "), generated regression tables frozen from the reviewed tree are re-checked against the current source: every rejecting guard is still performed (helper extraction and tail returns accepted), no new or altered non-rejecting branch condition (logging-only forks ignored), no new success result form, every guard and state-changing effect that stood on every accepting path still does, every call (with canonical arguments) and non-local store is still performed (one level of callee inlining), channel capacities unchanged. These tables are a regression reference (they do not claim the frozen code is right)."
+}
